@@ -661,6 +661,22 @@ class Lib(Interp):
                 self.elem_fact(d, v)
                 return s_val(v)
             return default
+        if name == "pop":
+            key = self.refine(args[0])
+            if key.kind != "str":
+                raise Unsupported("dict.pop non-str key")
+            dom = p.hread("dict.dom", d.ref)
+            if p.fork(z3.Select(dom, key.t)):
+                v = simp(z3.Select(p.hread("dict.map", d.ref), key.t))
+                self.elem_fact(d, v)
+                order = p.hread("dict.order", d.ref)
+                p.hwrite("dict.dom", d.ref, z3.Store(dom, key.t, False))
+                # the key occurs once in the insertion order (encoding invariant of dict.order): drop that occurrence
+                p.hwrite("dict.order", d.ref, simp(z3.Replace(order, z3.Unit(key.t), z3.Empty(M.StrSeq))))
+                return s_val(v)
+            if len(args) > 1:
+                return args[1]
+            raise PyExc("KeyError", None, "pop")
         if name == "keys":
             order = p.hread("dict.order", d.ref)
             r = p.alloc("list")
